@@ -814,11 +814,11 @@ Proof.
   f_equal. rewrite IH by lia. replace (N.to_nat (hoff + 1)) with (S (N.to_nat hoff)) by lia. reflexivity.
 Qed.
 
-Lemma emit_lv_plain maxkey maxval h0 mode desc lv :
-  lv_ok maxkey maxval lv -> (match mode with RBetween _ _ => False | _ => True end) ->
+Lemma emit_lv_spec maxkey maxval h0 mode desc lv :
+  lv_ok maxkey maxval lv -> desc_ts (lv_all lv) ->
   emit_lv h0 mode desc lv = emit mode desc (abs_lv lv).
 Proof.
-  intros (Ht & _) Hm. destruct mode; [| |tauto].
+  intros Hok Hd. pose proof Hok as (Ht & _). destruct mode as [| | i f].
   - destruct (lv_all_latest lv Ht) as (r & Hall). unfold emit_lv, emit, abs_lv. rewrite Hall.
     destruct (lv_latest lv) as [v t]. cbn [fst snd]. rewrite <- Hall, lv_all_length. reflexivity.
   - unfold emit_lv, emit, abs_lv. rewrite hist_entries_spec by lia. cbn [N.to_nat skipn].
@@ -826,16 +826,9 @@ Proof.
     + apply map_ext_in. intros [j x] Hin. apply number_from_bound in Hin. rewrite lv_all_length in Hin.
       cbn [fst snd]. f_equal. lia.
     + reflexivity.
-Qed.
-
-Lemma emit_lv_between maxkey maxval h0 i f desc lv :
-  lv_ok maxkey maxval lv -> desc_ts (lv_all lv) -> lv_history_count lv < 2 ^ 64 ->
-  f = 0 \/ f < i \/ Exists (fun x => snd x <= f) (lv_all lv) ->
-  emit_lv h0 (RBetween i f) desc lv = emit (RBetween i f) desc (abs_lv lv).
-Proof.
-  intros Hok Hd Hlim Hc. unfold emit_lv, emit, abs_lv.
-  rewrite (lv_between_partial maxkey maxval h0 lv i f Hok Hlim Hc).
-  destruct (f <? i); auto. rewrite scanl_between by exact Hd. reflexivity.
+  - unfold emit_lv, emit, abs_lv.
+    rewrite (lv_between_spec maxkey maxval h0 lv i f Hok).
+    destruct (f <? i); auto. rewrite scanl_between by exact Hd. reflexivity.
 Qed.
 
 (* ---------- the Reader refines the map's operational reading ---------- *)
@@ -876,20 +869,11 @@ Proof.
   - apply drop_until_map. reflexivity.
 Qed.
 
-(* the condition under which ReadBetween refines the map (see get_between_refuted otherwise) *)
-Definition mode_ok (mode : rmode) (root : node) : Prop :=
-  match mode with
-  | RBetween i f =>
-      Forall (fun lv => lv_history_count lv < 2 ^ 64 /\
-                        (f = 0 \/ f < i \/ Exists (fun x => snd x <= f) (lv_all lv))) (flatten root)
-  | _ => True
-  end.
-
 Theorem reader_refines_walk maxn maxkey maxval h0 root s mode :
-  root_ok maxn root -> tree_ok maxn maxkey maxval root -> tree_tsorted root -> mode_ok mode root ->
+  root_ok maxn root -> tree_ok maxn maxkey maxval root -> tree_tsorted root ->
   read_all h0 root s mode = Ok (mv_walk s mode (abs root)).
 Proof.
-  intros R T Ts Hm. rewrite (read_all_walk maxn maxkey maxval h0 root s mode R T). f_equal.
+  intros R T Ts. rewrite (read_all_walk maxn maxkey maxval h0 root s mode R T). f_equal.
   unfold mv_walk. rewrite <- stream_absl, <- lscan_absl.
   set (L := lscan s (stream_of root (rs_desc s) (rs_seek s)) 0).
   assert (HL : forall lv, In lv L -> In lv (flatten root)).
@@ -899,11 +883,7 @@ Proof.
   induction L as [|lv L IH]; [reflexivity|].
   cbn [flat_map absl map]. rewrite IH by (intros; apply HL; simpl; auto). f_equal.
   assert (Hin : In lv (flatten root)) by (apply HL; simpl; auto).
-  destruct mode as [| | i f].
-  - eapply emit_lv_plain; eauto.
-  - eapply emit_lv_plain; eauto.
-  - simpl in Hm. rewrite Forall_forall in Hm. destruct (Hm lv Hin) as [H1 H2].
-    eapply emit_lv_between; eauto.
-    unfold tree_tsorted, mv_tsorted in Ts. rewrite Forall_forall in Ts.
-    apply (Ts (abs_lv lv)). rewrite abs_eq. apply in_map. exact Hin.
+  eapply emit_lv_spec; eauto.
+  unfold tree_tsorted, mv_tsorted in Ts. rewrite Forall_forall in Ts.
+  apply (Ts (abs_lv lv)). rewrite abs_eq. apply in_map. exact Hin.
 Qed.
